@@ -7,6 +7,7 @@
 -/
 import DlmsVerif.Gen.Tables
 import DlmsVerif.Model.ConnSpec
+import DlmsVerif.Lemmas.Conn
 
 set_option linter.unusedSimpArgs false
 
@@ -27,9 +28,36 @@ def isOk {α} : Except Err α → Bool
   | .ok _ => true
   | .error _ => false
 
+
+private theorem T_eq : T = Lemmas.Conn.tbl := rfl
+
+/-- with `cfgOk` and a counter in range `encrypt` succeeds. -/
+private theorem encrypt_ok (c : Config) (s : Conn) (pl : Inner) (ek ak : Key) (hek : c.ek = some ek) (hak : c.ak = some ak)
+    (hc : cfgOk c = true) (hic : s.clientIC < 2 ^ 32) :
+    encrypt c s pl = .ok (.sealed ⟨ek, c.clientTitle, s.clientIC, c.scByte, ak⟩ pl, s.clientIC,
+      { s with clientIC := s.clientIC + 1, log := s.log ++ [.seal ⟨ek, c.clientTitle, s.clientIC, c.scByte, ak⟩] }) := by
+  unfold cfgOk at hc
+  rw [hek, hak] at hc
+  simp only [Bool.and_eq_true, decide_eq_true_eq, beq_iff_eq] at hc
+  obtain ⟨⟨⟨h1, h2⟩, h3⟩, h4⟩ := hc
+  exact Lemmas.Conn.encrypt_ok c s pl ek ak hek hak h1 h2 h3 h4 hic
+
+/-- sending without keys (no counter involved). -/
+private theorem send_refines_unprot (c : Config) (hu : c.useProtection = false) (s : Conn) (p : Phase)
+    (hs : s.state = phaseName p) (k : Kind) (e : Ev) (he : evOfSend k = some e) (ui : Bool) :
+    (send T c s k ui).2.state = phaseName (Spec.Assoc.step c.preEstablished p e) ∧
+    (isOk (send T c s k ui).1 = (next c.preEstablished p e).isSome) ∧
+    (isOk (send T c s k ui).1 = false → (send T c s k ui).2 = s) := by
+  have hl := Lemmas.Conn.send_lookup p k e he
+  unfold send
+  rw [hs, T_eq, hl]
+  clear hl
+  cases k <;> simp [evOfSend] at he <;> subst he <;> cases p <;> cases hpre : c.preEstablished <;>
+    simp [next, Spec.Assoc.step, Ev.isAcse, Kind.isAcseRequest, phaseName, isOk, hs, hu]
+
 /-- the initial state of a connection object is the procedure's "no association". -/
 theorem C03_initial : Gen.Tables.dlmsInitialState = phaseName .noAssociation := by
-  sorry
+  decide
 
 /-- **sending refines the procedure**: in every phase, for every request kind of the
     alphabet, the connection accepts the send exactly when the procedure allows it, ends in
@@ -39,7 +67,20 @@ theorem C03_send_refines (c : Config) (hc : cfgOk c = true) (s : Conn) (p : Phas
     (send T c s k ui).2.state = phaseName (step c.preEstablished p e) ∧
     (isOk (send T c s k ui).1 = (next c.preEstablished p e).isSome) ∧
     (isOk (send T c s k ui).1 = false → (send T c s k ui).2 = s) := by
-  sorry
+  cases hek : c.ek <;> cases hak : c.ak <;> simp only [cfgOk, hek, hak] at hc
+  · exact send_refines_unprot c (by simp [Config.useProtection, hek, hak]) s p hs k e he ui
+  · simp at hc
+  · simp at hc
+  · rename_i ek ak
+    have hu : c.useProtection = true := by simp [Config.useProtection, hek, hak]
+    have hc' : cfgOk c = true := by simp only [cfgOk, hek, hak]; exact hc
+    have hl := Lemmas.Conn.send_lookup p k e he
+    unfold send
+    rw [hs, T_eq, hl]
+    clear hl
+    cases k <;> simp [evOfSend] at he <;> subst he <;> cases p <;> cases hpre : c.preEstablished <;> cases ui <;>
+      simp [next, Spec.Assoc.step, Ev.isAcse, Kind.isAcseRequest, Kind.isAcseResponse, Kind.isXdlmsClass, phaseName,
+        isOk, hs, hu, encrypt_ok c _ _ ek ak hek hak hc', hic]
 
 /-- **receiving refines the procedure**: for every APDU of the alphabet in the clear. -/
 theorem C03_deliver_refines (c : Config) (s : Conn) (p : Phase) (hs : s.state = phaseName p)
@@ -47,12 +88,44 @@ theorem C03_deliver_refines (c : Config) (s : Conn) (p : Phase) (hs : s.state = 
     (deliver T c s a).2.state = phaseName (step c.preEstablished p e) ∧
     (isOk (deliver T c s a).1 = (next c.preEstablished p e).isSome) ∧
     (isOk (deliver T c s a).1 = false → (deliver T c s a).2 = s) := by
-  sorry
+  cases a with
+  | simple k =>
+    have hl := Lemmas.Conn.simple_lookup c s p k e he
+    unfold deliver transition
+    simp only [Apdu.kind]
+    rw [hs, T_eq, hl]
+    cases k <;> simp [evOfApdu] at he <;> subst he <;> cases p <;> cases hpre : c.preEstablished <;>
+      simp [next, Spec.Assoc.step, Ev.isAcse, Kind.isAcseResponse, phaseName, isOk, hs]
+  | ggc => simp [evOfApdu] at he
+  | rlre ui =>
+    simp only [evOfApdu, Option.some.injEq] at he; subst he
+    unfold deliver transition
+    simp only [Apdu.kind, Kind.cls]
+    rw [hs, T_eq, Lemmas.Conn.rlre_lookup]
+    cases p <;> cases hpre : c.preEstablished <;>
+      simp [next, Spec.Assoc.step, Ev.isAcse, Kind.isAcseResponse, phaseName, isOk, hs]
+  | actRespData status d =>
+    simp only [evOfApdu, Option.some.injEq] at he; subst he
+    unfold deliver transition
+    simp only [Apdu.kind, Kind.cls]
+    rw [hs, T_eq, Lemmas.Conn.actRespData_lookup]
+    cases hv : (status == 0 && hlsValid c s d) <;> cases p <;> cases hpre : c.preEstablished <;>
+      simp [next, Spec.Assoc.step, Ev.isAcse, Kind.isAcseResponse, phaseName, isOk, hs, Lemmas.Conn.hlsValid_state, hv,
+        Lemmas.Conn.hlsSuccess_lookup, Lemmas.Conn.hlsFailed_lookup]
+  | aare result mech title challenge ui =>
+    simp only [evOfApdu, Option.some.injEq] at he; subst he
+    unfold deliver transition
+    simp only [Apdu.kind, Kind.cls]
+    rw [hs, T_eq, Lemmas.Conn.aare_lookup]
+    cases hr : (result == 1 || result == 2) <;> cases hm : (mech == some 5) <;> cases ui <;> cases p <;>
+      cases hpre : c.preEstablished <;>
+      simp [next, Spec.Assoc.step, Ev.isAcse, Kind.isAcseResponse, phaseName, isOk, hs, hr, hm,
+        Lemmas.Conn.reject_lookup, Lemmas.Conn.hlsStart_lookup]
 
 /-- without keys `next_event` is `deliver`. -/
 theorem C03_recv_unprotected (c : Config) (h : c.useProtection = false) (s : Conn) (a : Apdu) :
     recv T c s (.apdu a) = deliver T c s a := by
-  sorry
+  simp only [recv, Lemmas.Conn.unprotect_unprotected c h]
 
 /-- an operation of the alphabet, seen as an abstract event in the current state. -/
 def evOfOp (c : Config) (s : Conn) : Op → Option Ev
@@ -72,7 +145,28 @@ theorem C03_history_refines (c : Config) (h : c.useProtection = false) (ops : Li
     (hs : s.state = phaseName p) (hic : s.clientIC < 2 ^ 32)
     (hal : ∀ e ∈ trace c ops s, e.isSome = true) :
     (run T c ops s).state = phaseName (Spec.Assoc.run c.preEstablished ((trace c ops s).filterMap id) p) := by
-  sorry
+  have h0 := hic
+  clear h0 hic
+  induction ops generalizing s p with
+  | nil => simpa [Model.Conn.run, trace, Spec.Assoc.run] using hs
+  | cons o os ih =>
+    simp only [trace, List.mem_cons, forall_eq_or_imp] at hal
+    obtain ⟨ho, hal'⟩ := hal
+    cases heo : evOfOp c s o with
+    | none => simp [heo] at ho
+    | some e =>
+      have key : (Model.Conn.step T c s o).state = phaseName (Spec.Assoc.step c.preEstablished p e) := by
+        cases o with
+        | send k ui => exact (send_refines_unprot c h s p hs k e heo ui).1
+        | recv x =>
+          cases x with
+          | garbage => simp [evOfOp] at heo
+          | apdu a =>
+            simp only [Model.Conn.step, C03_recv_unprotected c h]
+            exact (C03_deliver_refines c s p hs a e heo).1
+        | hlsReply => simp [evOfOp] at heo
+      simp only [Model.Conn.run, List.foldl_cons, trace, heo, List.filterMap_cons, id, Spec.Assoc.run]
+      exact ih _ _ key hal'
 
 /-- on a **pre-established** association ACSE APDUs are refused in both directions and
     nothing changes. -/
@@ -80,7 +174,10 @@ theorem C03_preEstablished_refuses_acse (c : Config) (h : c.preEstablished = tru
     (∀ ui, send T c s .aarq ui = (.error .preEstablished, s)) ∧
     (∀ ui, send T c s .rlrq ui = (.error .preEstablished, s)) ∧
     (∀ a, a.kind.isAcseResponse = true → deliver T c s a = (.error .preEstablished, s)) := by
-  sorry
+  refine ⟨?_, ?_, ?_⟩
+  · intro ui; simp [send, h, Kind.isAcseRequest]
+  · intro ui; simp [send, h, Kind.isAcseRequest]
+  · intro a ha; simp [deliver, h, ha]
 
 /-- properties of the procedure itself (what C03 says in words): a service request is allowed
     only while an association is established and nothing is outstanding; an association
@@ -95,6 +192,17 @@ theorem C03_procedure_facts :
     (∀ p, next false p .recvRlre = some .noAssociation ↔ p = .awaitingReleaseResponse) ∧
     (∀ e p', next false .shouldAckLastGetBlock e = some p' → e = .sendGetNext) ∧
     (∀ pre p p', next pre p .recvDataNotification = some p' → p = .ready ∧ p' = .ready) := by
-  sorry
+  refine ⟨?_, ?_, ?_, ?_, ?_, ?_, ?_⟩
+  · intro pre p e p' h hs
+    cases e <;> simp [Ev.isServiceRequest] at hs <;> cases pre <;> cases p <;> simp [next, Ev.isAcse] at h ⊢
+  · intro pre p p' h
+    cases pre <;> cases p <;> simp [next, Ev.isAcse] at h ⊢
+  · intro p; cases p <;> simp [next, Ev.isAcse]
+  · intro p h; cases p <;> cases h <;> simp [next, Ev.isAcse]
+  · intro p; cases p <;> simp [next, Ev.isAcse]
+  · intro e p' h
+    cases e <;> simp [next, Ev.isAcse] at h ⊢
+  · intro pre p p' h
+    cases pre <;> cases p <;> simp [next, Ev.isAcse] at h ⊢ <;> simp [h]
 
 end Props.C03
